@@ -1735,3 +1735,10 @@ Section JblPrint.
     eapply print_parse; eauto.
   Qed.
 End JblPrint.
+
+
+(* ================================================================ jbn_from_json never reports success without a root (3d4d0bc) *)
+Lemma from_json_root : forall ora json, from_json ora json <> Ok None.
+Proof.
+  intros ora json. unfold from_json. destruct (parse_value ora (parse_fuel json) 0 (skip_bom json)) as [[[v|] r]|e]; discriminate.
+Qed.
